@@ -369,6 +369,7 @@ func writeCorpus() {
 		"t.go":           "package main\n\nimport (\n\t\"bondgo\"\n)\n\nfunc main() {\n\tvar out0 bondgo.Output\n\tvar a uint8\n\tvar b uint8\n\tout0 = bondgo.Make(bondgo.Output, 3)\n\ta = 1\n\tb = 2\n\ta = a + b\n\tbondgo.IOWrite(out0, a)\n}\n",
 		"cfg.json":       "{\"DataType\":\"float32\",\"Params\":{\"expprec\":\"10\"}}\n",
 		"sb.json":        "{\"Rules\":[]}\n",
+		"map.json":       "{\"Assoc\":{\"clk\":\"sysclk\",\"reset\":\"btnC\",\"i0\":\"sw0\",\"i1\":\"sw1\",\"i2\":\"sw2\",\"o0\":\"led0\",\"o1\":\"led1\",\"o2\":\"led2\"}}\n",
 	}
 	for n, t := range files {
 		os.WriteFile(filepath.Join(corpusDir, n), []byte(t), 0o644)
@@ -433,6 +434,23 @@ func main() {
 		from, file string
 		c          toolCase
 	}{"basm:helper-module-opcodes", "out.json", toolCase{Name: "create-verilog:helper-module-opcodes", Tool: "bondmachine", Args: []string{"-bondmachine-file", "helper.json", "-create-verilog", "-verilog-flavor", "iverilog", "-verilog-simulation", "-simbox-file", "sb.json"}, Inputs: []string{"helper.json", "sb.json"}, Outputs: []string{"*.v"}}})
+	// generation options: the commented netlist and a board flavour (the board top level bondmachine_main.v is
+	// written from the IO map file, a JSON object that becomes a Go map)
+	for _, up := range []string{"a", "two-cps"} {
+		in := map[string]string{"a": "a.json", "two-cps": "two.json"}[up]
+		chained = append(chained, struct {
+			from, file string
+			c          toolCase
+		}{"basm:" + up, "out.json", toolCase{Name: "create-verilog:" + up + "-commented", Tool: "bondmachine", Args: []string{"-bondmachine-file", in, "-create-verilog", "-verilog-flavor", "iverilog", "-comment-verilog"}, Inputs: []string{in}, Outputs: []string{"*.v"}}})
+		chained = append(chained, struct {
+			from, file string
+			c          toolCase
+		}{"basm:" + up, "out.json", toolCase{Name: "create-verilog:" + up + "-board-commented", Tool: "bondmachine", Args: []string{"-bondmachine-file", in, "-create-verilog", "-verilog-flavor", "basys3", "-verilog-mapfile", "map.json", "-comment-verilog"}, Inputs: []string{in, "map.json"}, Outputs: []string{"*.v"}}})
+		chained = append(chained, struct {
+			from, file string
+			c          toolCase
+		}{"basm:" + up, "out.json", toolCase{Name: "create-verilog:" + up + "-board", Tool: "bondmachine", Args: []string{"-bondmachine-file", in, "-create-verilog", "-verilog-flavor", "basys3", "-verilog-mapfile", "map.json"}, Inputs: []string{in, "map.json"}, Outputs: []string{"*.v"}}})
+	}
 	if run.Thorough() {
 		cases = append(cases, toolCase{Name: "neuralbond:testnormal", Tool: "neuralbond", Args: []string{"-net-file", "net-testnormal.json", "-config-file", "cfg.json", "-neuron-lib-path", "/repo/library/neurons", "-save-basm", "nn.basm"}, Inputs: []string{"net-testnormal.json", "cfg.json"}, Outputs: []string{"nn.basm", "cfg.json"}})
 	}
